@@ -27,8 +27,8 @@ def sh(cmd, cwd=None, env=None, timeout=1800):
 def main():
     prop, i = sys.argv[1], sys.argv[2]
     rnd = os.environ.get("SEED_ROUND", "1")
-    src = ("/tmp/seed-out/%s" if rnd == "1" else "/tmp/seed2/%s") % prop
-    wt = ("/tmp/wt-%s" if rnd == "1" else "/tmp/w2-%s") % prop
+    src = "/tmp/seed-out/%s" % prop if rnd == "1" else "/tmp/seed%s/%s" % (rnd, prop)
+    wt = "/tmp/wt-%s" % prop if rnd == "1" else "/tmp/w%s-%s" % (rnd, prop)
     sid = "%s-%s" % (prop, i) if rnd == "1" else "%s-r%s-%s" % (prop, rnd, i)
     patch = os.path.join(src, "change%s.diff" % i)
     demo_rs = os.path.join(src, "demo%s.rs" % i)
